@@ -11,18 +11,13 @@ import Qryn.Tempo.SearchSem
 namespace Qryn.Confine
 open Qryn Qryn.Sql Qryn.Tempo
 
-/-- aliases of the SELECT list that name a timestamp column (`timestamp_ns as start_time_unix_nano`) -/
-def tsAliases (cols : List Expr) : List (String × String) :=
-  cols.filterMap (fun c => match c with
-    | .col (.raw c') a => if isTsCol c' then some (a, c') else none
-    | _ => none)
-
-/-- a comparison written on such an alias, as the comparison on the column it names -/
+/-- a comparison written on an alias of the SELECT list that names a timestamp column
+    (`timestamp_ns as start_time_unix_nano`), as the comparison on that column -/
 def unalias (cols : List Expr) : Expr → Expr
   | .logical fn [.raw c, v] =>
-    match (tsAliases cols).lookup c with
-    | some c' => .logical fn [.raw c', v]
-    | none => .logical fn [.raw c, v]
+    match (aliasList cols).lookup c with
+    | some (.raw c') => if isTsCol c' then .logical fn [.raw c', v] else .logical fn [.raw c, v]
+    | _ => .logical fn [.raw c, v]
   | e => e
 
 /-- the span scan has a lower and an upper timestamp bound inside the window -/
